@@ -334,11 +334,13 @@ spec.contract(
     ensures=[],
     loops=[
         LoopSpec(('treatment_group_size', 'treatment_group_sizes'),
-                 invariants=EX_INV, extra_modifies=EX_LOOP_MOD),
+                 invariants=EX_INV, extra_modifies=EX_LOOP_MOD,
+                 must_iterate='treatment_group', no_break=True),
         LoopSpec(('treatment_group', 'treatment_groups'),
-                 invariants=EX_INV, extra_modifies=EX_LOOP_MOD),
+                 invariants=EX_INV, extra_modifies=EX_LOOP_MOD,
+                 must_iterate='control_group', no_break=True),
         LoopSpec(('control_group', 'control_groups'),
-                 invariants=EX_INV,
+                 invariants=EX_INV, must_call='results.push', no_break=True,
                  extra_modifies=EX_LOOP_MOD + ['diag._x', 'diag._x_mean'] + [
                      'diag.' + f for f in cl.dg.CACHES]),
     ])
